@@ -1188,6 +1188,8 @@ Proof.
   - intros v mx body IHb cx bound cl IHc. apply sim_until; assumption.
   - intros k body IH Hw. discriminate.
   - intro Hw. discriminate.
+  - intros a b n o m Hw. discriminate.
+  - intros q ip a b n Hw. discriminate.
   - intros _ L st c st' e e' sg H I HL Hev HR. inv_ok H. inv_ok Hev. exists sg. split; [apply sx_nil|exact HR].
   - intros s IHs b IHb Hw L st c st' e e' sg H I HL Hev HR. cbn [bwfs] in Hw.
     apply andb_prop in Hw. destruct Hw as [Hw1 Hw2].
